@@ -129,7 +129,7 @@ func init() {
 			// canonical header ++ suffix => F through all four entry points; every single-byte
 			// perturbation (position = run%24, 256 values) through Buf
 			Name: "enum-canonical", Enumerated: true, Weight: 2,
-			N:    func(tier string, seed uint64) uint64 { return uint64(len(canons) * 24) },
+			N: func(tier string, seed uint64) uint64 { return uint64(len(canons) * 24) },
 			Run: func(c *Ctx) {
 				cn := canons[int(c.Run)/24]
 				pos := int(c.Run) % 24
@@ -175,7 +175,7 @@ func init() {
 			Name: "sampled", Weight: 3,
 			N: func(tier string, seed uint64) uint64 {
 				if tier == "thorough" {
-					return 2000000
+					return 40000000
 				}
 				return 150000
 			},
